@@ -206,7 +206,21 @@ func recC02(kind string, cfg c02Cfg, streams []c02Stream, steps []syStep, comple
 		Obs: map[string]any{"events": nev, "complete": complete, "steps": len(steps)}, Tags: tags, Coq: coq}
 }
 
+var syGuardSp *sySpread // the emitter of the running test (wedge watcher of the lock-step scenarios)
+
 func runC02Lock(t *testing.T, cfg c02Cfg, streams []c02Stream, seed int64, choose func(step int, en []syAct) int) (steps []syStep, complete bool) {
+	if syGuardSp != nil && !want(syGuardSp.idx) {
+		return nil, false // a resumed run: this scenario is not wanted (it may be the one that wedged)
+	}
+	var ds []string
+	for _, s := range streams {
+		ds = append(ds, s.String())
+	}
+	wstep, wstop := syGuardSp.guard("c02-lock", map[string]any{"streams": ds, "topo": syTopos[cfg.topo], "byRef": cfg.byRef},
+		[]string{"topo:" + syTopos[cfg.topo], "mode:lock-step"})
+	defer wstop()
+	syOnStep = wstep
+	defer func() { syOnStep = nil }()
 	bubble(t, func(t *testing.T) {
 		r := newSyRig(cfg.topo, cfg.byRef, true)
 		rng := rand.New(rand.NewSource(seed))
@@ -364,11 +378,65 @@ func runC02Opens(t *testing.T, rep, n, rounds int, byRef bool) (epochs [][]strin
 	return
 }
 
+// one free-running scenario: a goroutine per caller thread, no gating, seeded yields; a wedge ends it
+func runC02FreeOnce(t *testing.T, topo int, byRef bool, procs int, yseed int64, streams []c02Stream, rng *rand.Rand) (evs []string, wedged bool) {
+	old := runtime.GOMAXPROCS(procs)
+	defer runtime.GOMAXPROCS(old)
+	bubble(t, func(t *testing.T) {
+		r := newSyRig(topo, byRef, false)
+		r.mu.Lock()
+		r.yieldF = syRandomYield(yseed)
+		for k, s := range streams {
+			r.hprogs[int64(k)] = s.H
+		}
+		r.mu.Unlock()
+		var wg sync.WaitGroup
+		for k, s := range streams {
+			thr := s.threads(k, rng)
+			// the first thread opens; a second one (if any) waits for the stream
+			ready := make(chan struct{})
+			for ti, prog := range thr {
+				wg.Add(1)
+				go func(ti int, prog []syCop) {
+					defer wg.Done()
+					if ti > 0 {
+						<-ready
+					}
+					th := &syThread{prog: prog}
+					for th.pc < len(th.prog) {
+						if th.prog[th.pc].Op != "open" && r.slot(th.prog[th.pc].Slot) == nil {
+							return // the open failed
+						}
+						wasOpen := th.prog[th.pc].Op == "open"
+						r.exec(th)
+						if wasOpen {
+							close(ready)
+						}
+					}
+				}(ti, prog)
+			}
+		}
+		wedged = syAwait(&wg)
+		if wedged && os.Getenv("SY_DEBUG") != "" {
+			fmt.Fprintf(os.Stderr, "WEDGED free-running scenario: %v\n%s\n", streams, goroutineDump())
+		}
+		if !wedged {
+			synctest.Wait()
+		}
+		evs = r.hist.since(0)
+		r.close()
+		syQuiesce(wedged)
+	})
+	return
+}
+
 func TestC02(t *testing.T) {
 	syDebugWait = os.Getenv("SY_DEBUGW") != ""
 	em := NewEmitter()
 	defer em.Close()
 	sp := &sySpread{em: em, every: 6}
+	syGuardSp = sp
+	defer func() { syGuardSp = nil }()
 
 	// ---- C (run first, emitted spread). Free-running: a sender and a receiver goroutine per stream, no gating.
 	type freeCfg struct{ procs, streams, maxN, topo int }
@@ -400,58 +468,36 @@ func TestC02(t *testing.T) {
 				}
 				streams = append(streams, s)
 			}
-			old := runtime.GOMAXPROCS(fc.procs)
-			var evs []string
-			wedged := false
-			bubble(t, func(t *testing.T) {
-				r := newSyRig(fc.topo, cfg.byRef, false)
-				r.mu.Lock()
-				r.yieldF = syRandomYield(*flagSeed + int64(fi*100+rep))
-				for k, s := range streams {
-					r.hprogs[int64(k)] = s.H
-				}
-				r.mu.Unlock()
-				var wg sync.WaitGroup
-				for k, s := range streams {
-					thr := s.threads(k, rng)
-					// the first thread opens; a second one (if any) waits for the stream
-					ready := make(chan struct{})
-					for ti, prog := range thr {
-						wg.Add(1)
-						go func(ti int, prog []syCop) {
-							defer wg.Done()
-							if ti > 0 {
-								<-ready
-							}
-							th := &syThread{prog: prog}
-							for th.pc < len(th.prog) {
-								if th.prog[th.pc].Op != "open" && r.slot(th.prog[th.pc].Slot) == nil {
-									return // the open failed
-								}
-								wasOpen := th.prog[th.pc].Op == "open"
-								r.exec(th)
-								if wasOpen {
-									close(ready)
-								}
-							}
-						}(ti, prog)
-					}
-				}
-				wedged = syAwait(&wg)
-				if wedged && os.Getenv("SY_DEBUG") != "" {
-					fmt.Fprintf(os.Stderr, "WEDGED free-running scenario %d/%d: %v\n%s\n", fi, rep, streams, goroutineDump())
-				}
-				if !wedged {
-					synctest.Wait()
-				}
-				evs = r.hist.since(0)
-				r.close()
-				syQuiesce(wedged)
-			})
-			runtime.GOMAXPROCS(old)
+			evs, wedged := runC02FreeOnce(t, fc.topo, cfg.byRef, fc.procs, *flagSeed+int64(fi*100+rep), streams, rng)
 			// complete unless an operation is still blocked: wg.Wait returned, so every caller-side operation returned;
 			// handlers that never returned leave their receive open (judged by code 7)
 			sp.big = append(sp.big, recC02("c02-free", cfg, streams, []syStep{{syAct{'F', 0}, evs}}, true, "mode:free-running", fmt.Sprintf("procs=%d", fc.procs), fmt.Sprintf("wedged=%v", wedged)))
+		}
+	}
+	// ---- A6. full-duplex use over a link WITHOUT slack (goat's channel transport over unbuffered channels: a Write returns
+	// when the peer has read), free-running under the wedge detection: (a) a concurrent handler (receiver goroutine +
+	// pushing main goroutine) against a caller that sends everything before it starts receiving; (b) a caller with a
+	// sender and a receiver goroutine against an echo handler; (c) both sides concurrent
+	type duplexCfg struct {
+		cprog, n int
+		h        syHProg
+	}
+	var dups []duplexCfg
+	for _, n := range []int{8, 20, 100} {
+		dups = append(dups, duplexCfg{0, n, syHProg{Conc: 1, N: 5}}, duplexCfg{0, n, syHProg{Conc: 1, N: n}})
+	}
+	for _, n := range []int{20, 100} {
+		dups = append(dups, duplexCfg{2, n, syHProg{J: -1, Echo: true, Ping: true}}, duplexCfg{2, n, syHProg{Conc: 1, N: n}})
+	}
+	for di, d := range dups {
+		for rep := 0; rep < 2; rep++ {
+			rng := newRand(int64(710000 + 10*di + rep))
+			st := c02Stream{Kind: 2, N: d.n, CProg: d.cprog, ParkR: -1, ParkS: -1, H: d.h}
+			st.H.Seed = int64(9100 + di)
+			cfg := c02Cfg{3, true}
+			procs := []int{16, 4}[rep]
+			evs, wedged := runC02FreeOnce(t, 3, true, procs, *flagSeed+int64(5000+di*10+rep), []c02Stream{st}, rng)
+			sp.big = append(sp.big, recC02("c02-duplex", cfg, []c02Stream{st}, []syStep{{syAct{'F', 0}, evs}}, true, "mode:free-running-no-slack", fmt.Sprintf("procs=%d", procs), fmt.Sprintf("wedged=%v", wedged)))
 		}
 	}
 	// simultaneous opens (id allocation of streams)
